@@ -39,7 +39,7 @@ class GrammarSemantics(ModelBuilderSemantics):
         cls._validate_literal(ast)
         try:
             re.compile(str(ast))
-        except (TypeError, ValueError, re.error) as e:
+        except (TypeError, ValueError, OverflowError, re.error) as e:  # OverflowError: /a{99999999999999999999}/
             raise FailedSemantics(f'"{ast!r}"pattern error: {e!s}') from e
 
     def token(self, ast: str) -> g.Token:
